@@ -241,6 +241,28 @@ static void run_buffer(Src &s, Case &c, const char *tname)
         VP_CHECK(y.size() == b.size() && (b.empty() || memcmp(y.data(), b.data(), b.size()) == 0),
                  "archive_concat_second", "load_set_buffer (2nd): got %zu bytes, want %zu", y.size(), b.size());
     }
+    // one view object re-used for consecutive fields (a record loop): it must show each field in turn, also when two
+    // fields have the same length and the same bytes up to a NUL
+    {
+        std::string a2 = a + std::string("\0one", 4), b2 = a + std::string("\0two", 4), e2;
+        igris::archive::binary_string_writer w(e2);
+        igris::serialize(w, igris::buffer(a2.data(), a2.size()));
+        igris::serialize(w, igris::buffer(b2.data(), b2.size()));
+        igris::serialize(w, igris::buffer(a2.data(), a2.size()));
+        Exact blk2(e2.data(), e2.size());
+        igris::archive::binary_buffer_reader rd(blk2.c(), blk2.n);
+        igris::buffer z;
+        const std::string *want[3] = {&a2, &b2, &a2};
+        for (int k = 0; k < 3; k++)
+        {
+            rd.load_set_buffer(z);
+            size_t off = 2 + (size_t)k * (a2.size() + 2);
+            VP_CHECK(z.size() == want[k]->size() && z.data() == blk2.c() + off && memcmp(z.data(), want[k]->data(), want[k]->size()) == 0, "archive_reused_view",
+                     "load_set_buffer #%d into a re-used igris::buffer: view at offset %zd with %zu bytes \"%s\", the field is at %zu with %zu bytes \"%s\"", k + 1,
+                     (ssize_t)(z.data() - blk2.c()), z.size(), hexs(std::string(z.data(), z.size())).c_str(), off, want[k]->size(), hexs(*want[k]).c_str());
+        }
+        VP_CHECK(rd.ptr == blk2.c() + blk2.n, "archive_consumed", "three fields read into a re-used view: reader at %zd of %zu", (ssize_t)(rd.ptr - blk2.c()), blk2.n);
+    }
     // copying loads into destinations of capacity length+slack
     {
         igris::archive::binary_buffer_reader rd(blk.c(), blk.n);
